@@ -384,7 +384,8 @@ def unop(op, a):
 # ------------------------------------------------------------------------------------------------ function translation
 RESERVED = set("""as at cofix else end exists exists2 fix for forall fun if IF in let match mod return then using where with
 Type Prop Set SProp Z bool nat list fst snd negb andb orb true false irange xH xO xI Zpos Zneg Z0 O S pair option Some None
-positive unit tt prod""".split())
+positive unit tt prod Admitted admit Axiom Axioms Parameter Parameters Conjecture Conjectures Variable Hypothesis
+Definition Lemma Theorem Proof Qed Fixpoint Record Inductive Section End Require Import""".split())
 
 PASS_THROUGH = ("ParenExpr", "ExprWithCleanups", "ConstantExpr", "MaterializeTemporaryExpr", "CXXBindTemporaryExpr",
                 "SubstNonTypeTemplateParmExpr")
@@ -418,6 +419,7 @@ class FnTranslator:
             for c in cls.get("inner", []):
                 if c.get("kind") == "FieldDecl":
                     self.field_types[c["name"]] = c
+        self.ignore = set(entry.get("ignore_fields", []))
         self.fields_used = []      # field names in order of discovery
         self.fields_written = set()
         self.params = []           # (coq name, coq type) in order
@@ -703,6 +705,14 @@ class FnTranslator:
             n = n["inner"][0]
         kind = n.get("kind")
         if kind == "BinaryOperator" and n.get("opcode") == "=":
+            tk = self.lkey(n["inner"][0])
+            if tk is not None and tk[0] == "field" and tk[1] in self.ignore:
+                # a (non-integer) field the whitelist entry declares out of scope: the store is skipped, provided
+                # its right-hand side has no effect of its own
+                if self.contains(n["inner"][1], ("CallExpr", "CXXMemberCallExpr", "CompoundAssignOperator", "CXXOperatorCallExpr")) \
+                        or self.has_side_effect(n["inner"][1]):
+                    raise Unsupported("ignored field %s assigned from an expression with effects" % tk[1])
+                return k(env)
             return self.assign(env, n["inner"][0], self.ev(n["inner"][1], env), k)
         if kind == "CompoundAssignOperator":
             op = n["opcode"][:-1]
@@ -727,6 +737,14 @@ class FnTranslator:
                         self.fields_written.add(kk[1])
                 return self.bind(env, ka, b, self.base_name(ka), lambda env2: self.bind(env2, kb, a, self.base_name(kb), k))
         raise Unsupported(kind + (" " + n.get("opcode", "") if "opcode" in n else ""))
+
+    def has_side_effect(self, n):
+        if not isinstance(n, dict):
+            return False
+        if (n.get("kind") == "BinaryOperator" and n.get("opcode") == "=") or \
+                (n.get("kind") == "UnaryOperator" and n.get("opcode") in ("++", "--")):
+            return True
+        return any(self.has_side_effect(c) for c in n.get("inner", []))
 
     def seq(self, stmts, env, k):
         if not stmts:
@@ -1094,7 +1112,7 @@ class FnTranslator:
         fields = []
         for key in list(reads) + writes:
             kk = key[1] if key[0] in ("idx", "elem") else key
-            if kk[0] == "field" and kk[1] not in fields:
+            if kk[0] == "field" and kk[1] not in fields and kk[1] not in self.ignore:
                 fields.append(kk[1])
         order = [f for f in self.entry.get("self", []) if f in fields] + sorted(f for f in fields if f not in self.entry.get("self", []))
         self.self_order = order
@@ -1382,6 +1400,8 @@ def main():
         open(path, "w").write(txt)
     status["changed"] = changed
     status["translated"] = sorted(k for k, v in status["functions"].items() if v["status"] == "translated")
+    if not status["translated"]:
+        status["ok"] = False      # nothing could be translated (clang missing? build dir missing?): a translator problem
     status["seconds"] = round(time.time() - t0, 2)
     print(json.dumps(status))
 
